@@ -213,6 +213,7 @@ def check(ctx: Ctx) -> None:
     if not seen.get("homogeneous"):
         raise MachineryError("no homogeneity obligation")
     modules_on_lattice(ctx, grid)
+    bs_common.positional_forms(ctx, grid)
     spellings(ctx)
     for r in recs:
         ctx.distinct.add(json.dumps([r["p"], r["call"], r["strike"], r["built"], r["meth"], sorted(r["given"])]))
